@@ -774,7 +774,8 @@ def retOp (l : Line) : M Unit := do
           | .ok v => loaded := loaded ++ [(k, v)]
           | _ => pure ()
           let v : Nat := match oK with | .ok v => v | _ => (match kvs.find? (fun (p : Nat × Nat) => p.1 == k) with | some p => p.2 | none => 0)
-          chanParts := chanParts ++ [(k, s!"{k}:{v}:{if tag == "ok" then "nil" else if tag == "err" then "err" else "panic"}")]
+          let errT := match oK with | .notFound _ => "nf" | _ => (if tag == "ok" then "nil" else if tag == "err" then "err" else "panic")
+          chanParts := chanParts ++ [(k, s!"{k}:{v}:{errT}")]
         -- keys the loader volunteered are cached (fake calls) but not returned by BulkGet;
         -- a bulk refresh lists them in its result (the implementation's choice; no property constrains it)
         if tag != "pan" then
